@@ -232,3 +232,73 @@ fn c05_icmp6_other_8() {
 fn c05_icmp6_other_32() {
     icmp6_case(None, 32)
 }
+
+fn icmp6_events(ty: Option<u8>, n: usize) {
+    let mut buf: [u8; 32] = kani::any();
+    match ty {
+        Some(t) => buf[0] = t,
+        None => kani::assume(buf[0] != 128 && buf[0] != 135),
+    }
+    let req = Icmpv6Packet::new(&buf[..n]).unwrap();
+    let a6 = any_ip6();
+    let mut s_set = HashSet::new();
+    s_set.insert(IpAddr::V6(a6));
+    let s_on: bool = kani::any();
+    let mut masscanned = ms_counting([0, 0], any_mac());
+    if s_on {
+        masscanned.self_ip_list = Some(&s_set);
+    }
+    let ci = ClientInfo::new();
+    let (r, _dst) = repl(&req, &masscanned, &ci);
+    if crate::verif_known::C20_ICMPV6_NONZERO_CODE_NO_DROP && buf[1] != 0 {
+        kani::cover!(ev(L_ICMPV6).send + ev(L_ICMPV6).drop == 0, "KF:c20.icmpv6_nonzero_code_no_drop");
+    } else {
+        assert!(balanced(L_ICMPV6, r.is_some()), "C20: ICMPv6 layer did not log exactly one recv and one terminal event (send iff answered)");
+    }
+    kani::cover!(r.is_some(), "answered");
+    kani::cover!(r.is_none(), "dropped");
+}
+
+//# harness: c20_icmpv6_events_ns
+//# props: C20
+//# tier: quick
+//# encodes: layer_4::icmpv6::repl, nd_ns_repl
+//# encodes: logger::MetaLogger::{icmpv6_recv,icmpv6_send,icmpv6_drop}
+//# bounds: 24-byte neighbour solicitation, code and all bytes symbolic; self-IP list absent or {a6}
+//# known: c20.icmpv6_nonzero_code_no_drop
+//# cover: answered
+//# cover: dropped
+#[kani::proof]
+#[kani::unwind(40)]
+fn c20_icmpv6_events_ns() {
+    icmp6_events(Some(135), 24)
+}
+
+//# harness: c20_icmpv6_events_other
+//# props: C20
+//# tier: quick
+//# encodes: layer_4::icmpv6::repl
+//# bounds: 8-byte ICMPv6 message of any type except 135 (echo request, replies, everything else), code symbolic
+//# known: c20.icmpv6_nonzero_code_no_drop
+//# cover: dropped
+#[kani::proof]
+#[kani::unwind(40)]
+fn c20_icmpv6_events_other() {
+    let t: u8 = kani::any();
+    kani::assume(t != 135);
+    icmp6_events_any(t)
+}
+fn icmp6_events_any(t: u8) {
+    let mut buf: [u8; 8] = kani::any();
+    buf[0] = t;
+    let req = Icmpv6Packet::new(&buf[..]).unwrap();
+    let masscanned = ms_counting([0, 0], any_mac());
+    let ci = ClientInfo::new();
+    let (r, _dst) = repl(&req, &masscanned, &ci);
+    if crate::verif_known::C20_ICMPV6_NONZERO_CODE_NO_DROP && buf[1] != 0 {
+        kani::cover!(ev(L_ICMPV6).send + ev(L_ICMPV6).drop == 0, "KF:c20.icmpv6_nonzero_code_no_drop");
+    } else {
+        assert!(balanced(L_ICMPV6, r.is_some()), "C20: ICMPv6 layer did not log exactly one recv and one terminal event (send iff answered)");
+    }
+    kani::cover!(r.is_none(), "dropped");
+}
